@@ -10,7 +10,10 @@ use quote::quote;
 use regex::Regex;
 use trustfall::{Schema, SchemaAdapter, TryIntoStruct};
 
-use crate::util::{escaped_rust_name, parse_import, to_lower_snake_case, upper_case_variant_name};
+use crate::util::{
+    escaped_rust_name, parse_import, to_lower_snake_case, upper_case_variant_name,
+    variant_conversion_fn_name,
+};
 
 use super::{
     adapter_creator::make_adapter_file, edges_creator::make_edges_file,
@@ -426,19 +429,24 @@ fn ensure_no_vertex_name_conflicts(querying_schema: &Schema, adapter: Arc<Schema
         .collect();
     rows.sort_unstable();
 
-    let mut uniq: HashMap<String, String> = HashMap::new();
+    // Each vertex type gives rise to three generated names, none of which may repeat:
+    // - the lower snake case name used for its module and its resolver functions,
+    // - its `Vertex` enum variant, where only the first letter is capitalized, and
+    // - the `as_<variant>()` conversion method that the derive macro names after the variant.
+    let mut uniq: HashMap<(&'static str, String), String> = HashMap::new();
 
     for row in rows {
         let name = row.name.clone();
-        // we normalize to lower snake case here, however in vertex name we capitalize this name instead
-        // it doesn't really matter though because the important one is just to normalize to the same capitalization scheme
         let converted = escaped_rust_name(to_lower_snake_case(&name));
-        let v = uniq.insert(converted, name);
-        if let Some(v) = v {
-            panic!(
-                "cannot generate adapter for a schema containing both '{}' and '{}' vertices, consider renaming one of them",
-                v, row.name
-            );
+        let variant = escaped_rust_name(upper_case_variant_name(&name));
+        let conversion = variant_conversion_fn_name(&variant);
+        for key in [("module", converted), ("variant", variant), ("conversion", conversion)] {
+            if let Some(v) = uniq.insert(key, name.clone()) {
+                panic!(
+                    "cannot generate adapter for a schema containing both '{}' and '{}' vertices, consider renaming one of them",
+                    v, row.name
+                );
+            }
         }
     }
 }
